@@ -4,21 +4,25 @@ three places where a remote peer sees it:
 
 * `exports` (objects.py `DBusObjectHandler.__init__/exportObject/unexportObject`): a Python
   `dict` path -> object, i.e. an insertion-ordered table (assignment to an existing key keeps
-  its position, `del` of a missing key raises `KeyError`), and the `InterfacesAdded` /
-  `InterfacesRemoved` signals handed to `conn.sendMessage`;
+  its position, `del` of a missing key raises), and the `InterfacesAdded` / `InterfacesRemoved`
+  signals handed to `conn.sendMessage`.  `exportObject` first collects the properties and
+  builds (marshals) the signal - which raises for an object whose properties cannot be sent -
+  and only then touches the table (repair fixes/C16-03);
 * the child-node computation of `introspection.generateIntrospectionXML`, on strings, as the
   code does it (`endswith('/')`, `startswith`, slice, `partition('/')[0]`, `not in matches`);
 * the descendant selection of `DBusObjectHandler.getManagedObjects` (`sorted(keys)`,
-  `startswith`);
-* the head of `handleMethodCallMessage`: Peer.Ping, Introspectable.Introspect (falls through
-  when the XML is `None`), the `UnknownObject` branch, ObjectManager.GetManagedObjects, and
-  "everything else goes on to method dispatch" (C10).
+  `startswith`) and the `except Exception -> Error.Failed` around it;
+* the head of `handleMethodCallMessage`: which (interface, member) pairs are answered by the
+  handler itself (taken from the generated table `Gen.Dispatch`), Peer.Ping,
+  Introspectable.Introspect (falls through when the XML is `None`), the `UnknownObject` branch,
+  ObjectManager.GetManagedObjects, and "everything else goes on to method dispatch" (C10).
 
-The model mirrors the code AFTER the repairs fixes/C16-01 (F23) and fixes/C16-02 (F24); the
-pre-repair variants are kept (`childLoopOrig`, `managedOrig`) for the witness theorems.
-Objects are abstract (`Txdbus.Obj.Obj`).  Core Lean only.
+The model mirrors the code AFTER the repairs fixes/C16-01 (F23), C16-02 (F24), C16-03 (half-done
+export); the pre-repair variants are kept (`childLoopOrig`, `managedOrig`, `stepOrig`) for the
+witness theorems.  Objects are abstract (`Txdbus.Obj.Obj`).  Core Lean only.
 -/
 import TxdbusModel.Obj.TreeSpec
+import TxdbusModel.Gen.Dispatch
 
 namespace Txdbus.Obj.Tree
 
@@ -53,64 +57,81 @@ def insertSorted (x : Str) : List Str → List Str
 /-- `sorted(list_of_str)` -/
 def sortStr (l : List Str) : List Str := l.foldr insertSorted []
 
-/-- Keys of a `dict` filled by `d[k] = …` for `k` in `l`: first occurrences, in order. -/
-def dictKeys (l : List Str) : List Str :=
-  l.foldl (fun acc k => if acc.contains k then acc else acc ++ [k]) []
+/-! ### Python dicts with `str` keys -/
 
-/-! ### The table `self.exports` -/
+/-- `dict` in insertion order. -/
+abbrev Table (α : Type) := List (Str × α)
 
-/-- `dict` path -> object in insertion order. -/
-abbrev Exports := List (Str × Obj)
-
-/-- `exports.get(p, None)` -/
-def lookup : Exports → Str → Option Obj
+/-- `d.get(p, None)` -/
+def lookup {α : Type} : Table α → Str → Option α
   | [], _ => none
   | (k, o) :: e, p => if k = p then some o else lookup e p
 
-/-- `exports[p] = o`: an existing key keeps its position. -/
-def setItem : Exports → Str → Obj → Exports
+/-- `d[p] = o`: an existing key keeps its position. -/
+def setItem {α : Type} : Table α → Str → α → Table α
   | [], p, o => [(p, o)]
   | (k, v) :: e, p, o => if k = p then (k, o) :: e else (k, v) :: setItem e p o
 
-/-- `del exports[p]` (the caller has looked the key up before). -/
-def delItem (e : Exports) (p : Str) : Exports := e.filter (fun kv => !(kv.1 == p))
+/-- `del d[p]` (the caller has looked the key up before). -/
+def delItem {α : Type} (e : Table α) (p : Str) : Table α := e.filter (fun kv => !(kv.1 == p))
 
-/-- `exports.keys()` -/
-def keys (e : Exports) : List Str := e.map Prod.fst
+/-- `d.keys()` -/
+def keys {α : Type} (e : Table α) : List Str := e.map Prod.fst
+
+/-- The dict built by `i = {}; for iface in …: i[iface.name] = getAllProperties(iface.name)`. -/
+def dictOf (l : List (Str × Nat)) : Table Nat := l.foldl (fun d kv => setItem d kv.1 kv.2) []
+
+/-- `self.exports` -/
+abbrev Exports := Table Obj
 
 /-! ### export / unexport -/
 
 /-- The two ObjectManager signals, as handed to `conn.sendMessage`: the path in the message
-header, the first body argument, the interface names of the second body argument (keys of
-the dict `a{sa{sv}}`, resp. the array `as`) and, for InterfacesAdded, the properties. -/
+header, the first body argument, and the second body argument: the dict `a{sa{sv}}` interface
+name -> properties (token), resp. the array `as` of interface names. -/
 inductive Signal where
-  | interfacesAdded (hdrPath argPath : Str) (ifaces : List Str) (payload : Nat)
+  | interfacesAdded (hdrPath argPath : Str) (ifaces : Table Nat)
   | interfacesRemoved (hdrPath argPath : Str) (ifaces : List Str)
   deriving DecidableEq, Repr
 
-/-- Result of one API call: the table afterwards, the messages sent, whether `KeyError` was raised. -/
+/-- Result of one API call: the table afterwards, the messages sent, whether it raised. -/
 structure StepResult where
   exports : Exports
   sent : List Signal
-  keyError : Bool
+  raised : Bool
   deriving DecidableEq, Repr
 
 /-- `exportObject(o)` / `unexportObject(p)`. -/
 def step (e : Exports) : Op → StepResult
   | .export o =>
-    { exports := setItem e o.path o
-      sent := [.interfacesAdded o.path o.path (dictKeys o.ifaces) o.payload]
-      keyError := false }
+    -- getAllProperties of every interface, SignalMessage(...) (marshalled in its constructor)
+    if o.sendable then
+      { exports := setItem e o.path o
+        sent := [.interfacesAdded o.path o.path (dictOf o.ifaces)]
+        raised := false }
+    else { exports := e, sent := [], raised := true }
   | .unexport p =>
     match lookup e p with
-    | none => { exports := e, sent := [], keyError := true }      -- `o = self.exports[objectPath]` raises
+    | none => { exports := e, sent := [], raised := true }      -- `o = self.exports[objectPath]` raises
     | some o =>
       { exports := delItem e p
-        sent := [.interfacesRemoved o.path o.path o.ifaces]
-        keyError := false }
+        sent := [.interfacesRemoved o.path o.path o.ifaceNames]
+        raised := false }
 
-/-- The table after a history of calls (a `KeyError` leaves it unchanged). -/
+/-- `exportObject` before the repair C16-03: the table is written first. -/
+def stepOrig (e : Exports) : Op → StepResult
+  | .export o =>
+    if o.sendable then
+      { exports := setItem e o.path o
+        sent := [.interfacesAdded o.path o.path (dictOf o.ifaces)]
+        raised := false }
+    else { exports := setItem e o.path o, sent := [], raised := true }
+  | op => step e op
+
+/-- The table after a history of calls (a call that raises leaves it unchanged). -/
 def run (h : List Op) : Exports := h.foldl (fun e op => (step e op).exports) []
+
+def runOrig (h : List Op) : Exports := h.foldl (fun e op => (stepOrig e op).exports) []
 
 /-! ### Introspection: child nodes -/
 
@@ -146,45 +167,68 @@ def introspectChildren (p : Str) (e : Exports) : List Str := childLoop (dirPrefi
 def introspectChildrenOrig (p : Str) (e : Exports) : List Str := childLoopOrig (dirPrefix p) (keys e) []
 
 /-- `generateIntrospectionXML`: `None`, or the interface names of the object at `p` (if any;
-the three built-in interfaces of `_intro` follow them) and the child node names. -/
+the built-in interfaces of `_intro` follow them) and the child node names. -/
 def introspect (p : Str) (e : Exports) : Option (Option (List Str) × List Str) :=
   let obj := lookup e p
   let kids := introspectChildren p e
   if obj.isNone && kids.isEmpty then none
-  else some (obj.map (·.ifaces), kids)
+  else some (obj.map (·.ifaceNames), kids)
 
 /-! ### GetManagedObjects -/
 
-/-- One entry of the reply dict: path, interface names (dict keys), the properties. -/
-abbrev Entry := Str × List Str × Nat
+/-- One entry of the reply dict: path, and the dict interface name -> properties (token). -/
+abbrev Entry := Str × Table Nat
 
 def entryOf (e : Exports) (k : Str) : Option Entry :=
-  (lookup e k).map fun o => (k, dictKeys o.ifaces, o.payload)
+  (lookup e k).map fun o => (k, dictOf o.ifaces)
 
-/-- `getManagedObjects(objectPath)` (repaired: the prefix test is on `objectPath + '/'`). -/
-def managed (p : Str) (e : Exports) : List Entry :=
+/-- The paths `getManagedObjects(objectPath)` visits (repaired: prefix test on `objectPath + '/'`). -/
+def managedKeys (p : Str) (e : Exports) : List Str :=
   let pre := dirPrefix p
-  ((sortStr (keys e)).filter fun k => !(!startsWith k pre || k == p)).filterMap (entryOf e)
+  (sortStr (keys e)).filter fun k => !(!startsWith k pre || k == p)
+
+def managed (p : Str) (e : Exports) : List Entry := (managedKeys p e).filterMap (entryOf e)
 
 /-- Before the repair of F24: `p.startswith(objectPath)`. -/
 def managedOrig (p : Str) (e : Exports) : List Entry :=
   ((sortStr (keys e)).filter fun k => !(!startsWith k p || k == p)).filterMap (entryOf e)
 
+/-- Collecting and marshalling the properties of every visited object succeeds. -/
+def managedSendable (p : Str) (e : Exports) : Bool :=
+  (managedKeys p e).all fun k => match lookup e k with | some o => o.sendable | none => true
+
 /-! ### Head of `handleMethodCallMessage` -/
 
 inductive Call where
-  | ping                 -- org.freedesktop.DBus.Peer.Ping
-  | introspect           -- org.freedesktop.DBus.Introspectable.Introspect
-  | getManagedObjects    -- org.freedesktop.DBus.ObjectManager.GetManagedObjects
+  | ping                 -- Gen.Dispatch.peerPair
+  | introspect           -- Gen.Dispatch.introspectPair
+  | getManagedObjects    -- Gen.Dispatch.managedPair
   | ordinary             -- any other interface / member
   deriving DecidableEq, Repr
+
+def isPair (pr : String × String) (iface : Option Str) (member : Str) : Bool :=
+  iface == some pr.1.toList && member == pr.2.toList
+
+/-- The `msg.interface == … and msg.member == …` tests, in the order of the code; the pairs
+come from the table generated from objects.py. -/
+def classify (iface : Option Str) (member : Str) : Call :=
+  if isPair Gen.Dispatch.peerPair iface member then .ping
+  else if isPair Gen.Dispatch.introspectPair iface member then .introspect
+  else if isPair Gen.Dispatch.managedPair iface member then .getManagedObjects
+  else .ordinary
+
+/-- Error names of the two error replies of this part of the handler (generated table). -/
+def unknownObjectName : Str := Gen.Dispatch.unknownObject.1.toList
+def managedFailedName : Str := Gen.Dispatch.managedFailed.1.toList
 
 inductive Reply where
   | pong
   | introspection (ifaces : Option (List Str)) (children : List Str)
   | managed (entries : List Entry)
-  /-- error `org.freedesktop.DBus.Error.UnknownObject`, text `<path> is not an object provided by this process.` -/
+  /-- error `unknownObjectName` about `path` -/
   | unknownObject (path : Str)
+  /-- error `managedFailedName` -/
+  | managedFailed
   /-- the call goes on to interface / method lookup on this object (C10) -/
   | dispatch (o : Obj)
   deriving DecidableEq, Repr
@@ -197,7 +241,12 @@ def handle (e : Exports) (p : Str) (c : Call) : Reply :=
     match lookup e p with
     | none => .unknownObject p
     | some o =>
-      if c = .getManagedObjects then .managed (managed o.path e)
+      if c = .getManagedObjects then
+        if managedSendable o.path e then .managed (managed o.path e) else .managedFailed
       else .dispatch o
+
+/-- `handleMethodCallMessage(msg)` for a call of `member` on `iface` (absent: `none`) at `p`. -/
+def handleMsg (e : Exports) (p : Str) (iface : Option Str) (member : Str) : Reply :=
+  handle e p (classify iface member)
 
 end Txdbus.Obj.Tree
